@@ -11,6 +11,12 @@ Translated (Python ast -> Gallina over `string`, fail closed):
                                       (+ `inflight_paths_equal : ... = ...` by eq_refl: the build breaks if they differ)
   DEFAULT_INFLIGHT_TIMEOUT_MS, DEFAULT_GRACE_MS (collect), TABLE_DEFAULT_GRACE_MS (Table.garbage_collect)
   MARKERS_FIRST                       whether collect() loads the in-flight protection before it reads the metadata
+  COLLECT_CHECKS_CURRENT_SNAPSHOT     whether collect() calls self._require_current_snapshot_listed(metadata) on refresh()'s result,
+  / CURRENT_UNSET_NUM                 unconditionally, before the first sweep (the helper's body is pinned statement by statement;
+                                      Model/GCDoc.v current_listed is that loop over the document)
+  LIST_/MANIFEST_JSON_MISSING_SECTION_READS_EMPTY
+                                      FileManager.read_manifest(_list)_file, JSON fallback: `for x in DOC.get(key, [])` (a document
+                                      without its section reads as EMPTY: true) or `for x in DOC[key]` (refused: false)
   append_accepts_path normpath file_path
                                       Transaction.append_files: the conjunction of the pure path guards it applies to EVERY file
                                       unconditionally (`self._require_*(data_file.file_path)` statements at the top level of its
@@ -327,12 +333,16 @@ def _norm_ws(s: str) -> str:
 LP_TOKENS = "call:_load_inflight_protection set:protected_files"
 # collect()'s own check that the version hint names an existing metadata file: pointer plane, outside the collector model
 HINT_CHECK_TOKENS = "call:_require_hinted_metadata_present do:self._require_hinted_metadata_present"
+# collect()'s check that the metadata's current snapshot is one of the snapshots it lists: document plane (Model/GCDoc.v
+# collect_doc; regenerated as COLLECT_CHECKS_CURRENT_SNAPSHOT + the pinned helper below)
+CURRENT_CHECK = "_require_current_snapshot_listed"
+CURRENT_CHECK_TOKENS = f"call:{CURRENT_CHECK} do:self.{CURRENT_CHECK}"
 
 
 def _movable(s: str) -> str:
     """collect(): the call that loads the in-flight protection may sit before the metadata refresh (the repair planned for
     C06) or after the reachability phase; both orders are modelled (GenNorm.MARKERS_FIRST). Logging-only `if`s are dropped."""
-    return _norm_ws(_norm_ws(s).replace(LP_TOKENS, " ").replace(HINT_CHECK_TOKENS, " ").replace("if{ }else{ }", " "))
+    return _norm_ws(_norm_ws(s).replace(LP_TOKENS, " ").replace(HINT_CHECK_TOKENS, " ").replace(CURRENT_CHECK_TOKENS, " ").replace("if{ }else{ }", " "))
 
 
 def markers_first(fn: ast.FunctionDef) -> bool:
@@ -354,6 +364,61 @@ def check_skeleton(fn: ast.FunctionDef, key: str) -> None:
     if not ok:
         raise Unsupported(f"control skeleton of {fn.name} changed (hand-modelled in Model/GC.v; re-validate the model).\n"
                           f"  expected: {GOLDEN_SKELETONS[key][0]}\n  got:      {got}")
+
+
+# ----------------------------------------------------------------------------- collect(): current snapshot listed?
+CURRENT_CHECK_BODY = [
+    "current_id = metadata.current_snapshot_id",
+    "if current_id is None or current_id == -1:\n    return",
+    "for snapshot in metadata.snapshots:\n    if snapshot.snapshot_id == current_id:\n        return",
+]
+
+
+def current_snapshot_check(gc: ast.Module, collect: ast.FunctionDef) -> Tuple[bool, int]:
+    """Does collect() refuse a metadata whose current_snapshot_id names none of the snapshots it lists, before anything is
+    deleted by a sweep?  -> (yes / no, the number that spells "no snapshot yet" besides None).
+
+    yes: collect() calls self._require_current_snapshot_listed(metadata) -- `metadata` being what refresh() returned -- as a
+    statement of its own body before the first _gc_prefix, and the helper is, statement for statement, the pinned
+        current_id = metadata.current_snapshot_id
+        if current_id is None or current_id == -1: return
+        for snapshot in metadata.snapshots:
+            if snapshot.snapshot_id == current_id: return
+        raise GarbageCollectionAborted(...)
+    (Model/GCDoc.v current_listed is this loop over the DOCUMENT: TableMetadata.current_snapshot_id / Snapshot.snapshot_id are
+    the document's values at gen_current_snapshot_key / gen_snapshot_id_key, passed on unchanged: Gen/GenDoc.v SAny).
+    no: neither the call nor the helper exists.  Anything in between: Unsupported."""
+    cls = next((n for n in ast.walk(gc) if isinstance(n, ast.ClassDef) and n.name == "GarbageCollector"), None)
+    helper = next((n for n in (cls.body if cls else []) if isinstance(n, ast.FunctionDef) and n.name == CURRENT_CHECK), None)
+    calls = [n for n in ast.walk(collect) if isinstance(n, ast.Call) and _self_chain(n.func) == CURRENT_CHECK]
+    if helper is None and not calls:
+        return False, -1
+    if helper is None or len(calls) != 1:
+        raise Unsupported(f"collect: {CURRENT_CHECK} is called {len(calls)} time(s) / defined: {helper is not None}")
+    if [a.arg for a in helper.args.args] != ["self", "metadata"]:
+        raise Unsupported(f"{CURRENT_CHECK}: signature changed")
+    body = strip_docstring(helper.body)
+    got = [ast.unparse(x) for x in body[:-1]]
+    last = body[-1] if body else None
+    if got != CURRENT_CHECK_BODY or not (isinstance(last, ast.Raise) and isinstance(last.exc, ast.Call)
+                                         and isinstance(last.exc.func, ast.Name) and last.exc.func.id == "GarbageCollectionAborted"):
+        raise Unsupported(f"{CURRENT_CHECK}: body changed (hand-modelled in Model/GCDoc.v current_listed; re-validate the model).\n"
+                          f"  expected: {CURRENT_CHECK_BODY} + raise GarbageCollectionAborted(...)\n  got:      {got}")
+    # the call: a statement of collect()'s own body (unconditional), on the name bound to refresh()'s result, after that
+    # binding and before the first sweep
+    top = strip_docstring(collect.body)
+    idx = [i for i, st in enumerate(top) if isinstance(st, ast.Expr) and st.value is calls[0]]
+    refresh = [i for i, st in enumerate(top) if isinstance(st, ast.Assign) and isinstance(st.value, ast.Call)
+               and _self_chain(st.value.func) == "metadata_manager.refresh" and len(st.targets) == 1 and isinstance(st.targets[0], ast.Name)]
+    sweeps = [i for i, st in enumerate(top) if any(isinstance(n, ast.Call) and _self_chain(n.func) == "_gc_prefix" for n in ast.walk(st))]
+    if len(idx) != 1 or len(refresh) != 1 or not sweeps:
+        raise Unsupported(f"collect: {CURRENT_CHECK} is not called as an unconditional statement of collect()")
+    arg = calls[0].args
+    if not (len(arg) == 1 and not calls[0].keywords and isinstance(arg[0], ast.Name) and arg[0].id == top[refresh[0]].targets[0].id):
+        raise Unsupported(f"collect: {CURRENT_CHECK} is not applied to the metadata refresh() returned")
+    if not (refresh[0] < idx[0] < min(sweeps)):
+        raise Unsupported(f"collect: {CURRENT_CHECK} is not between the metadata refresh and the first sweep")
+    return True, -1
 
 
 # ----------------------------------------------------------------------------- Avro -> JSON fallback (pinned)
@@ -379,6 +444,32 @@ def check_avro_fallback(fm: ast.Module, name: str) -> None:
         raise Unsupported(f"{name}: the Avro handler no longer just falls through to the JSON fallback")
     if len(js.handlers) != 1 or not any(isinstance(s, ast.Raise) for s in js.handlers[0].body):
         raise Unsupported(f"{name}: the JSON fallback's handler no longer raises")
+
+
+def json_missing_section_reads_empty(fm: ast.Module, name: str) -> bool:
+    """The JSON fallback of read_manifest(_list)_file iterates ONE section of the decoded document:
+        for x in DOC.get("key", [])     a document without the key reads as an EMPTY list / manifest     -> True
+        for x in DOC["key"]             a document without the key is refused (KeyError -> ValueError)    -> False
+    (Model/GC.v json_parse on CJsonEmpty).  Any other loop form: Unsupported."""
+    fn = find_function(fm, name, cls="FileManager")
+    js = [s for s in strip_docstring(fn.body) if isinstance(s, ast.Try)][1]
+    first = js.body[0]
+    if not (isinstance(first, ast.Assign) and len(first.targets) == 1 and isinstance(first.targets[0], ast.Name)
+            and isinstance(first.value, ast.Call) and ast.unparse(first.value.func) == "json.loads"):
+        raise Unsupported(f"{name}: the JSON fallback does not start with X = json.loads(..)")
+    doc = first.targets[0].id
+    loops = [s for s in js.body if isinstance(s, ast.For)]
+    if len(loops) != 1:
+        raise Unsupported(f"{name}: the JSON fallback has {len(loops)} loops, expected one over the document's section")
+    it = loops[0].iter
+    if (isinstance(it, ast.Call) and isinstance(it.func, ast.Attribute) and it.func.attr == "get" and isinstance(it.func.value, ast.Name)
+            and it.func.value.id == doc and len(it.args) == 2 and isinstance(it.args[0], ast.Constant)
+            and isinstance(it.args[1], ast.List) and not it.args[1].elts and not it.keywords):
+        return True
+    if isinstance(it, ast.Subscript) and isinstance(it.value, ast.Name) and it.value.id == doc and isinstance(it.slice, ast.Constant) \
+            and isinstance(it.slice.value, str):
+        return False
+    raise Unsupported(f"{name}: the JSON fallback iterates {ast.unparse(it)}: neither DOC.get(key, []) nor DOC[key]")
 
 
 # ----------------------------------------------------------------------------- generator
@@ -566,7 +657,12 @@ def gen_norm(src: str) -> str:
     reg = find_function(tx, "_register_inflight", cls="Transaction")
     if [a.arg for a in reg.args.args] != ["self", "file_path"]:
         raise Unsupported("_register_inflight signature changed")
-    reg_path, reg_payload = register_terms(reg, {"_INFLIGHT_PATH": "TX_INFLIGHT_PATH"})
+    try:
+        reg_path, reg_payload = register_terms(reg, {"_INFLIGHT_PATH": "TX_INFLIGHT_PATH"})
+    except Unsupported as e:
+        raise Unsupported(f"Transaction._register_inflight (how a marker is NAMED and what its payload says must be a function of the "
+                          f"registered file path alone: the collector's fallback for an unreadable payload derives the protected paths "
+                          f"from the marker's name -- C07_registered_marker_fallback_covers): {e}")
     accept_term, accept_names = acceptance_term(tx)
 
     # hand-modelled control structure: pinned
@@ -575,6 +671,9 @@ def gen_norm(src: str) -> str:
     check_avro_fallback(fm, "read_manifest_file")
     check_skeleton(collect, "collect")
     mfirst = markers_first(collect)
+    checks_current, unset_num = current_snapshot_check(gc, collect)
+    list_json_empty = json_missing_section_reads_empty(fm, "read_manifest_list_file")
+    manifest_json_empty = json_missing_section_reads_empty(fm, "read_manifest_file")
     check_skeleton(find_function(gc, "_load_inflight_protection", cls="GarbageCollector"), "_load_inflight_protection")
     check_skeleton(mt, "_marker_targets")
     check_skeleton(find_function(gc, "_gc_prefix", cls="GarbageCollector"), "_gc_prefix")
@@ -592,6 +691,16 @@ Definition inflight_paths_equal : INFLIGHT_PATH = TX_INFLIGHT_PATH := eq_refl.
 
 (* collect(): is _load_inflight_protection called before metadata_manager.refresh()?  (Model/GC.v gc_run_from) *)
 Definition MARKERS_FIRST : bool := {"true" if mfirst else "false"}.
+
+(* collect(): does it refuse (GarbageCollectionAborted, before the first sweep) a metadata whose current_snapshot_id is set
+   -- not None, not CURRENT_UNSET_NUM -- and equals the snapshot_id of none of the snapshots it lists?  (Model/GCDoc.v) *)
+Definition COLLECT_CHECKS_CURRENT_SNAPSHOT : bool := {"true" if checks_current else "false"}.
+Definition CURRENT_UNSET_NUM : Z := ({unset_num})%Z.
+
+(* FileManager.read_manifest_list_file / read_manifest_file, JSON fallback: does a JSON document WITHOUT its section
+   (`manifests` / `files`) read as an EMPTY list / manifest (`DOC.get(key, [])`), or is it refused (`DOC[key]`)?  (Model/GC.v) *)
+Definition LIST_JSON_MISSING_SECTION_READS_EMPTY : bool := {"true" if list_json_empty else "false"}.
+Definition MANIFEST_JSON_MISSING_SECTION_READS_EMPTY : bool := {"true" if manifest_json_empty else "false"}.
 
 Definition DEFAULT_INFLIGHT_TIMEOUT_MS : Z := ({timeout})%Z.
 Definition DEFAULT_GRACE_MS : Z := ({grace})%Z.
